@@ -192,6 +192,65 @@ def boundary_scenarios(work, rng, tier):
     return out
 
 
+def listing_size_boundary(tools, work, rep, ev):
+    """the 64 KiB listing boundary: a directory with < 256 entries whose listing has exactly 65529..65537 bytes (a basic directory
+    inode stores listing size + 3 in 16 bits).  The adjustable name is tuned by measuring the produced image."""
+    hit = {}
+    n = 0
+
+    def pack(k):
+        s = gen.Scenario(work, "b_listing_%d" % k)
+        s.add_dir("/d", mode=0o711)
+        for i in range(248):
+            s.add_pipe("/d/" + ("p%03d" % i).ljust(255, "x"))
+        s.add_pipe("/d/" + "q" * k)
+        out = s.dir + "/o.sqfs"
+        rc, o, e = sh([tools + "/gensquashfs", "-q", "-f", "-c", "gzip", "-F", s.packfile(), out], timeout=120)
+        if rc != 0:
+            shutil.rmtree(s.dir, ignore_errors=True)
+            return rc, None, ["gensquashfs fails: %s" % e.decode(errors="replace")[-150:]]
+        try:
+            img = sqfsimg.load(out)
+            size = [i for i in img.inode_list if i["type"] == "dir" and i["num"] != img.root["num"]][0]["size"] - 3
+            diffs = fidelity.compare(s.expected(), fidelity.decoded_tree(img), check_mtime=0)[:3]
+        except sqfsimg.DecodeError as ex:
+            size, diffs = None, ["image cannot be decoded: %s" % ex]
+        rc2, o2, e2 = sh([tools + "/rdsquashfs", "-l", "/d", out], timeout=60)
+        if rc2 != 0 or len([l for l in o2.split(b"\n") if l.strip()]) != 249:
+            diffs = diffs + ["rdsquashfs -l /d lists %d of 249 entries (rc %d)" % (len([l for l in o2.split(b"\n") if l.strip()]), rc2)]
+        shutil.rmtree(s.dir, ignore_errors=True)
+        return rc, size, diffs
+
+    def judge(k, size, diffs):
+        if diffs:
+            rep.violation("fidelity-listing-size", "directory with 249 entries, adjustable name of %d bytes, stored listing size %s: %s" % (k, size, diffs[:2]),
+                          data={"listing_size": size, "name_len": k})
+        elif size is not None:
+            hit[size] = True
+
+    k = 120
+    rc, size, diffs = pack(k)
+    n += 1
+    judge(k, size, diffs)
+    base = (k, size)
+    for target in range(65529, 65538):
+        # listing size grows by one per name byte (header positions may shift it by a few bytes: re-measure)
+        for _ in range(4):
+            if size == target or base[1] is None:
+                break
+            k2 = max(1, min(255, base[0] + (target - base[1])))
+            if k2 == k:
+                break
+            k = k2
+            rc, size, diffs = pack(k)
+            n += 1
+            judge(k, size, diffs)
+            if size is not None and not diffs:
+                base = (k, size)
+    ev.set("listing_sizes_hit(64 KiB boundary)", sorted(x for x in hit if 65520 <= x <= 65540))
+    return n
+
+
 def run(tier):
     ev = Evidence(PID, tier, "exploration")
     rep = Reporter(PID, ev)
@@ -372,6 +431,7 @@ def run(tier):
                 rep.violation(key, "%s: image does not read back as packed: %s" % (label, res["diffs"][:3]), data={"case": label, "diffs": res["diffs"]})
             elif res["reader"]:
                 rep.violation("reader-disagrees", "%s: %s" % (label, res["reader"][:2]))
+    evaluations += listing_size_boundary(tools, work, rep, ev)
     ev.sample({"kind": "scenario-runs", "cases": ["%s -c %s %s" % (os.path.basename(j[0].dir), j[2], " ".join(j[1] + j[3])) for j in jobs[:8]]}, limit=6)
     # ---- unrepresentable inputs must be refused ----------------------------------------------------------
     s = gen.Scenario(work, "u_longname")
